@@ -19,11 +19,11 @@ T == Traces[tid]
 Hide(log) == SelectSeq(log, LAMBDA e : e[1] # "bind")
 HasAbsent(seq) == \E i \in DOMAIN seq : \E j \in DOMAIN seq[i] : seq[i][j] = "ABSENT"
 StreamAbsent(r) == \E s \in DOMAIN r.streams : \E i \in DOMAIN r.streams[s] : \E j \in DOMAIN r.streams[s][i] :
-                      r.streams[s][i][j][2] = "ABSENT"
+                      r.streams[s][i][j][2] \in {"ABSENT", "[ABSENT]"}
 D == T.decl
 IsMarker(e, m) == e[1] = "call" /\ e[2] = m
 MarkerIdx(log, m) == LET I == {i \in DOMAIN log : IsMarker(log[i], m)} IN IF I = {} THEN 0 ELSE CHOOSE i \in I : \A j \in I : i <= j
-Instr(r) == r.mode \in {"tooled", "inplace", "tweak", "tweak2", "tweak_cond", "ovprobe"}
+Instr(r) == r.mode \in {"tooled", "inplace", "tweak", "tweak2", "tweak_cond", "ovprobe", "total"}
             \/ (r.mode = "probe" /\ \E i \in DOMAIN r.sels : r.sels[i].focus \in {D.var, "$x"}
                                                             \/ \E j \in DOMAIN r.sels[i].ctx : r.sels[i].ctx[j] = D.var)
 SupplyIdx(r) == {i \in DOMAIN r.sels : r.sels[i].focus = D.var}
@@ -37,6 +37,8 @@ Str3(n) == Digits[(n \div 100) + 1] \o Digits[((n \div 10) % 10) + 1] \o Digits[
 
 CheckRun(r, k) ==
   LET leakvars == { r.log[i][2] : i \in {j \in DOMAIN r.log : r.log[j][1] = "seen" /\ r.log[j][3] = "ABSENT"} }
+                  \cup UNION { UNION { { r.streams[s][i][j][1] : j \in {x \in DOMAIN r.streams[s][i] : r.streams[s][i][x][2] \in {"ABSENT", "[ABSENT]"}} }
+                                       : i \in DOMAIN r.streams[s] } : s \in DOMAIN r.streams }
       instrAll == r.mode \in {"tooled", "inplace", "tweak", "tweak2", "tweak_cond"}
                   \/ (r.mode = "probe" /\ \E i \in DOMAIN r.sels : r.sels[i].focus = "$x")
       instrV(v) == instrAll \/ (\E i \in DOMAIN r.sels : r.sels[i].focus = v \/ \E j \in DOMAIN r.sels[i].ctx : r.sels[i].ctx[j] = v)
